@@ -102,6 +102,26 @@ func vpH_C12_gate() {
 			vpAssert(isNotice, "C12.rejection-is-a-notice")
 		}
 	}
+	// a second frame on the same connection is judged on its own outcomes (the gate keeps
+	// no memory of earlier frames): same parsed message, fresh free outcomes
+	if failRead || typ != websocket.MessageText {
+		vpReach("end")
+		return
+	}
+	utf8ok, jsonok, valid = vpBool("utf8-2"), vpBool("json-2"), vpBool("valid-2")
+	verifyOK = vpBool("verify-2")
+	verifyErr = false
+	err = relay.serveRead(context.Background(), nil, recv, send, nil)
+	vpAssert(err == nil, "C12.connection-stays-usable")
+	pass2 := vpAnd(vpAnd(utf8ok, jsonok), vpAnd(parseOK, valid))
+	if isEvent {
+		pass2 = vpAnd(pass2, verifyOK)
+	}
+	if pass2 {
+		vpAssert(len(recv) == 1 && len(send) == 0, "C12.second-frame-judged-on-its-own")
+	} else {
+		vpAssert(len(recv) == 0 && len(send) == 1, "C12.second-frame-judged-on-its-own")
+	}
 	vpReach("end")
 }
 
